@@ -42,7 +42,59 @@ const (
 	vpC41ExcessSpan   = 40 * time.Millisecond  // an excess of SYN_SENT rows must persist this long (>= 3 samples) to count
 	vpC41SampleEvery  = 3 * time.Millisecond
 	vpC41PrefillProbe = 300 * time.Millisecond
+	vpC41KeyIOTimeout = "C41/poller-timeout-not-errdialtimeout"
 )
+
+// vpC41IsPollerTimeout recognises the signature of the known finding: the dial did time out, but the
+// error is the net poller's "i/o timeout" (a net.Error with Timeout() == true) wrapped with the
+// upstream address instead of ErrDialTimeout.
+func vpC41IsPollerTimeout(err error) bool {
+	if err == nil || errors.Is(err, ErrDialTimeout) {
+		return false
+	}
+	var up *ErrDialWithUpstream
+	var ne net.Error
+	return errors.As(err, &up) && errors.As(err, &ne) && ne.Timeout()
+}
+
+var vpC41ProbeOnce sync.Once
+
+// vpC41ProbeIOTimeout: 40 concurrent dials to a single-address host that hangs, 100 ms timeout,
+// unlimited concurrency. Every one of them must fail with ErrDialTimeout.
+func vpC41ProbeIOTimeout(u *vpC41Universe) {
+	vpC41ProbeOnce.Do(func() {
+		res := &vpC41Resolver{hosts: map[string][]net.IPAddr{"probe.vp41.test": {{IP: net.ParseIP(u.hangIP[0])}}}, calls: map[string]int{}}
+		d := &TCPDialer{Resolver: res}
+		defer d.FlushDNSCache()
+		var wg sync.WaitGroup
+		var mu sync.Mutex
+		mis, other := 0, 0
+		var sample error
+		for i := 0; i < 40; i++ {
+			wg.Add(1)
+			go func() {
+				defer wg.Done()
+				c, err := d.DialTimeout(fmt.Sprintf("probe.vp41.test:%d", u.ports[0]), 100*time.Millisecond)
+				if c != nil {
+					c.Close()
+				}
+				mu.Lock()
+				defer mu.Unlock()
+				switch {
+				case errors.Is(err, ErrDialTimeout):
+				case vpC41IsPollerTimeout(err):
+					mis++
+					sample = err
+				default:
+					other++
+					sample = err
+				}
+			}()
+		}
+		wg.Wait()
+		vpProbe(vpC41KeyIOTimeout, mis > 0, fmt.Sprintf("40 concurrent DialTimeout(100ms) to a host whose only address hangs: %d returned an i/o timeout that is not ErrDialTimeout, %d something else; e.g. %v", mis, other, sample))
+	})
+}
 
 type vpC41Universe struct {
 	ports    []int
@@ -359,11 +411,13 @@ type vpC41Dial struct {
 	dual    bool
 	delay   time.Duration
 	// results
-	err      error
-	elapsed  time.Duration
-	remote   string
-	greeting string
-	ok       bool
+	err            error
+	elapsed        time.Duration
+	control        time.Duration // when a control timer armed for the same timeout at the same moment actually fired (0: dial returned earlier)
+	remote         string
+	greeting       string
+	ok             bool
+	knownIOTimeout bool // outcome falls in the open known finding C41/poller-timeout-not-errdialtimeout
 }
 
 func vpC41DoDial(d *TCPDialer, h *vpC41Host, dl *vpC41Dial) {
@@ -371,6 +425,8 @@ func vpC41DoDial(d *TCPDialer, h *vpC41Host, dl *vpC41Dial) {
 		time.Sleep(dl.delay)
 	}
 	start := time.Now()
+	ctl := make(chan time.Duration, 1)
+	tm := time.AfterFunc(dl.timeout, func() { ctl <- time.Since(start) })
 	var c net.Conn
 	var err error
 	if dl.dual {
@@ -379,6 +435,11 @@ func vpC41DoDial(d *TCPDialer, h *vpC41Host, dl *vpC41Dial) {
 		c, err = d.DialTimeout(h.addr(), dl.timeout)
 	}
 	dl.elapsed = time.Since(start)
+	if tm.Stop() {
+		dl.control = 0 // the dial returned before its timeout
+	} else {
+		dl.control = <-ctl // how late timers run in this process right now
+	}
 	dl.err = err
 	if err == nil && c != nil {
 		dl.ok = true
@@ -411,8 +472,8 @@ func vpC41CheckDial(h *vpC41Host, dl *vpC41Dial, i int, hang bool) string {
 		return where + ": returned both a connection and an error"
 	}
 	if errors.Is(dl.err, ErrDialTimeout) {
-		if dl.elapsed > dl.timeout+vpC41Slack {
-			return fmt.Sprintf("%s: ErrDialTimeout returned after %v (limit: timeout + %v slack)", where, dl.elapsed.Round(time.Millisecond), vpC41Slack)
+		if dl.elapsed > max(dl.timeout, dl.control)+vpC41Slack {
+			return fmt.Sprintf("%s: ErrDialTimeout returned after %v (limit: timeout + %v slack; a control timer for the same timeout fired after %v)", where, dl.elapsed.Round(time.Millisecond), vpC41Slack, dl.control.Round(time.Millisecond))
 		}
 		var up *ErrDialWithUpstream
 		if !errors.As(dl.err, &up) {
@@ -427,8 +488,18 @@ func vpC41CheckDial(h *vpC41Host, dl *vpC41Dial, i int, hang bool) string {
 		return ""
 	}
 	// any other error: only possible when every address refused
-	if dl.elapsed > dl.timeout+vpC41Slack {
-		return fmt.Sprintf("%s: failed with %v after %v (limit: timeout + %v slack)", where, dl.err, dl.elapsed.Round(time.Millisecond), vpC41Slack)
+	if hang && vpC41IsPollerTimeout(dl.err) && vpKnownOpen(vpC41KeyIOTimeout) && dl.elapsed <= max(dl.timeout, dl.control)+vpC41Slack {
+		var up *ErrDialWithUpstream
+		errors.As(dl.err, &up)
+		if k, known := h.addrs[up.Upstream]; known && k == vpC41KHang {
+			// known finding: the timeout of the last address tried is reported as the poller's "i/o timeout"
+			vpExclude(vpC41KeyIOTimeout)
+			dl.knownIOTimeout = true
+			return ""
+		}
+	}
+	if dl.elapsed > max(dl.timeout, dl.control)+vpC41Slack {
+		return fmt.Sprintf("%s: failed with %v after %v (limit: timeout + %v slack; control timer fired after %v)", where, dl.err, dl.elapsed.Round(time.Millisecond), vpC41Slack, dl.control.Round(time.Millisecond))
 	}
 	if h.nKind[vpC41KListen] > 0 || h.nKind[vpC41KHang] > 0 {
 		return fmt.Sprintf("%s: failed with %v although not all addresses refuse (every resolved address must be tried; a hanging one ends in ErrDialTimeout)", where, dl.err)
@@ -566,6 +637,7 @@ type vpC41Sample struct {
 
 func TestVP_C41_Hang(t *testing.T) {
 	u := vpC41GetUniverse(t)
+	vpC41ProbeIOTimeout(u)
 	rapid.Check(t, func(t *rapid.T) {
 		conc := rapid.IntRange(1, 4).Draw(t, "concurrency")
 		nHosts := rapid.IntRange(1, 3).Draw(t, "hosts")
@@ -654,7 +726,7 @@ func TestVP_C41_Hang(t *testing.T) {
 						worst = max(worst, x.n)
 					}
 					problems = append(problems, fmt.Sprintf("up to %d connects in progress towards hanging endpoints for %v (samples %d..%d at %v..%v) with Concurrency %d",
-						worst, (s.at - samples[runStart].at).Round(time.Millisecond), runStart, i, samples[runStart].at.Round(time.Millisecond), s.at.Round(time.Millisecond), conc))
+						worst, (s.at-samples[runStart].at).Round(time.Millisecond), runStart, i, samples[runStart].at.Round(time.Millisecond), s.at.Round(time.Millisecond), conc))
 					break
 				}
 			} else {
@@ -670,13 +742,13 @@ func TestVP_C41_Hang(t *testing.T) {
 			switch {
 			case dl.err == nil:
 				nOK++
-			case errors.Is(dl.err, ErrDialTimeout):
+			case errors.Is(dl.err, ErrDialTimeout) || dl.knownIOTimeout:
 				nTimeout++
 			default:
 				nRefused++
 			}
 			// a host whose addresses all hang can only time out
-			if h.nKind[vpC41KHang] == len(h.ips) && !errors.Is(dl.err, ErrDialTimeout) {
+			if h.nKind[vpC41KHang] == len(h.ips) && !errors.Is(dl.err, ErrDialTimeout) && !dl.knownIOTimeout {
 				problems = append(problems, fmt.Sprintf("dial #%d to %s [%s]: every address hangs, want ErrDialTimeout, got %v", i, h.addr(), h.shape(), dl.err))
 			}
 		}
